@@ -10,6 +10,10 @@ claimed = {
    text="Proof, for all lengths, offsets, capacities and aliasing of the arguments and all element types, that no function of package slice writes a cell of a backing array that existed before the call, and that every store goes into an array allocated by the call itself. That per-call frame is the inductive step of the history property; the induction over histories is an argument in DESIGN.md, not machine-checked."),
  "C13": dict(design="§4 C13", technique="contract-based deductive verification: functional postconditions (with ghost witness arrays and callback traces) on all 29 functions of pkg/slice, loop invariants, VCs discharged by z3/cvc5; counterexample model replayed on the real functions against an executable reference",
    text="Proof that every function of package slice returns the value its F#-List-style specification gives, for every input in its domain (all lengths, any element type, any total callback), including left-to-right callback order, Sort/SortBy = ascending permutation (against an assumed contract of slices.SortFunc), Distinct = first occurrences."),
+ "C10": dict(design="§4 C10", technique="contract-based deductive verification against an ASSUMED contract of go-cmp: OpEqual/OpNotEqual postconditions (never panics, result == struct_eq, negation) proved from the options actually passed to cmp.Equal; thorough tier adds a bounded differential run of the real OpEqual (labelled bounded)",
+   text="Proof that OpEqual passes exactly the options under which go-cmp's documented behaviour is total structural equality with nil == empty slices, and that OpNotEqual is its negation. The contract of cmp.Equal is an assumption (go-cmp is a dependency, not code of this repository); the thorough tier validates it on a bounded universe of first-order values and says so."),
+ "C14": dict(design="§4 C14", technique="contract-based deductive verification: finite-map contracts with a map heap and an assumed each-entry-once enumeration for dict, SMT-string definitions for strings, ghost buffer contents for buf, callback call traces for frt.Pipe/IfElse/IfOnly, no-panic of toS against assumed reflect preconditions; VCs discharged by z3/cvc5",
+   text="Proof of the functional contract of every function of pkg/dict, pkg/strings, pkg/buf and of the frt helpers named in the statement, for all arguments; standard-library functions (strings.*, fmt.Sprintf fragment, reflect.Value accessors, bytes.Buffer, map range) enter as assumed contracts listed in the evidence."),
 }
 na = {
  "C01": "whole-compiler semantic preservation needs a formal semantics of Folang and of Go plus a simulation proof through tokenizer, parser, inference and emitter; no function-level contract expresses it (DESIGN §5). Its run-time ingredients are decided under C10, C12-C14.",
